@@ -209,6 +209,44 @@ theorem in_kex_cleared_only_when_settled (L : Limits) (s : St) (o : Op) (h1 : s.
   | loopTop => simp only [step] at h2; split at h2 <;> simp_all
   | peerKexInit => simp_all [step]
 
+/-- **A rekey request never costs bytes.**  `read_all` leaves the read loop with NeedRekeyException only while
+nothing of the packet has been taken off the socket — for every fragmentation of the stream and every placement
+of timeouts; so the re-exchange can start on an idle link without desynchronising the packet stream. -/
+theorem need_rekey_exception_loses_nothing (need check : Bool) (n got used : Nat) (evs : List SockEv) (lost : Nat)
+    (h : readAll need check n got used evs = .needRekey lost) : lost = 0 ∧ got = 0 := by
+  induction evs generalizing n got used with
+  | nil => simp only [readAll] at h; split at h <;> simp at h
+  | cons ev evs ih =>
+    simp only [readAll] at h
+    by_cases hn : n = 0
+    · simp [hn] at h
+    · simp only [hn, if_false] at h
+      cases ev with
+      | data k =>
+        simp only at h
+        by_cases hk : k = 0
+        · simp [hk] at h
+        · simp only [hk, if_false] at h
+          have := ih _ _ _ h
+          have hpos : 0 < min k n := by
+            have : 0 < k := Nat.pos_of_ne_zero hk
+            have : 0 < n := Nat.pos_of_ne_zero hn
+            exact Nat.lt_min.mpr ⟨‹0 < k›, ‹0 < n›⟩
+          omega
+      | timeout =>
+        simp only at h
+        by_cases hc : check = true ∧ got = 0 ∧ need = true
+        · simp only [hc, and_self, if_true, ReadResult.needRekey.injEq] at h
+          exact ⟨by omega, hc.2.1⟩
+        · simp only [hc, if_false] at h
+          exact ih _ _ _ h
+
+/-- a read that succeeds took exactly the bytes it was asked for: an idle timeout in the middle of a packet
+(rekey pending or not) just waits -/
+theorem read_all_waits_mid_packet (need : Bool) (n got used : Nat) (evs : List SockEv) (hg : got ≠ 0) :
+    readAll need true n got used (.timeout :: evs) = (if n = 0 then .ok used else readAll need true n got (used + 1) evs) := by
+  simp [readAll, hg]
+
 /-! ## non-vacuity: a scaled-down packetizer through two complete rekeys and an ignoring peer -/
 
 private def small : Limits := ⟨4, 1000, 3, 500⟩
@@ -224,5 +262,10 @@ example : (run small {} [.recv 999, .recv 1]).needRekey = true := by decide
 /-- a peer that keeps sending: dropped at the third packet after the request -/
 example : (run small {} [.recv 999, .recv 1, .recv 1, .recv 1]).err = false ∧
     (run small {} [.recv 999, .recv 1, .recv 1, .recv 1, .recv 1]).err = true := by decide
+
+/-- fragments around a timeout with a request pending: the header read waits, nothing is lost -/
+example : readAll true true 8 0 0 [.data 3, .timeout, .data 5] = .ok 3 := by decide
+/-- idle link with a request pending: the exception, with nothing consumed -/
+example : readAll true true 8 0 0 [.timeout, .data 8] = .needRekey 0 := by decide
 
 end PV.Props.C10
